@@ -596,6 +596,8 @@ class LaunchRun(object):
         self.spawned = 0
 
     # ------------------------------------------------------------------ config
+    second_listener_line = False
+
     def draw_config(self):
         ch = self.ch
         self.T = ch.pick([30, 5, 120], 'T')
@@ -633,6 +635,10 @@ class LaunchRun(object):
         self.script.append(('listener', ('Oct 03 00:00:00.000 [notice] Opening Control listener on %s\n' % where).encode('ascii')))
         if ch.chance(1, 2, 'opened'):
             self.script.append(('log', ('Oct 03 00:00:00.000 [notice] Opened Control listener connection (ready) on %s\n' % where).encode('ascii')))
+        if ch.chance(1, 5, 'listener2'):
+            # the configuration asks for a further control listener, which Tor announces in the same words
+            self.script.append(('log', b'Oct 03 00:00:00.000 [notice] Opening Control listener on /sim/data/extra-control.socket\n'))
+            self.second_listener_line = True
 
     # ------------------------------------------------------------------- helpers
     def guard(self, fn):
@@ -852,6 +858,12 @@ class LaunchRun(object):
                               'launch() succeeded at a moment when TAKEOWNERSHIP had not yet been written to the control '
                               'connection that reported 100%% (written so far: %r)' % (
                                   bytes(p.conn.transport.written).split(b'\r\n')[-6:],))
+            if len(self.peers) > 1:
+                self.fail('C19.more-than-one-control-connection',
+                          'launch() succeeded having opened %d control connections to the one process (the log announced %s control '
+                          'listeners)' % (len(self.peers), 'two' if self.second_listener_line else 'one'))
+            if self.second_listener_line:
+                sim.probe('second-control-listener-announced')
             sim.probe('success')
             if any(p.p100_before_ack for p in self.peers):
                 sim.probe('100-before-ownership-ack')
